@@ -1,28 +1,39 @@
 (* GradChainP.v — property C15 IN A GRAPH: back-propagation through an activation whose input is a
    tracked leaf or the output of earlier tracked operations and whose output is consumed by an
-   ARBITRARY deeper graph.  Closes the two gaps left by GradActP.v / GradSoftmaxP.v:
+   ARBITRARY deeper graph.  Closes the two gaps left by GradActP.v / GradSoftmaxP.v.
 
    GAP 1 (later nodes).  [prefS h1 H]: the heap H has, on its first [length h1] positions, the
-     structure of the heap h1 returned by the component; anything may follow.  [trunc_fold]: folding
-     [process_node] over nodes < L whose rules only mention ids < L commutes with truncating the heap
-     to its first L nodes ([agreeL]); [trunc_transfer] turns every fold-based component theorem on
-     [firstn (length h1) H] into one on H.  [tanh_grad_ext] ... [softmax_grad_ext] are the
-     generalisations of the fold-based theorems.
-   GAP 2 (order).  [dfs_find]: if y occurs in [topoOrder H r], the order is
-     [pre ++ snd (dfs f H y (V, R))] for a state (V, R) in which neither y nor any internal node of
-     the component has been visited (internal nodes are reachable only through y:
-     [no_outside_edge]).  [*_dfs_y]: the search below y, evaluated on the concrete edge lists, is
-     [y :: internals (fixed order) ++ rest ++ R] whether or not x was already visited.
-     [*_block]: hence [topoOrder H r = pre ++ (y :: internals) ++ post]  ([topo_block]: no node of
-     the block in pre/post, x not in pre, every consumer of y in pre).
-   IN-GRAPH THEOREMS.  [comp_in_graph] (generic glue) and [tanh_grad_in_graph],
+     structure of the heap h1 returned by the component; anything may follow.  [eval_rule_local]: a
+     rule only reads the values of the nodes it mentions ([rule_vals]) and the gradient of its owner.
+     [trunc_fold]/[trunc_transfer] (generic): folding [process_node] over nodes < L whose rules only
+     mention ids < L commutes with truncating the heap to its first L nodes; so every fold-based
+     component theorem on [firstn (length h1) H] is one on H.  [tanh_grad_ext], [relu_grad_ext],
+     [leaky_grad_ext], [sigmoid_grad_ext], [softmax_grad_ext]: the fold-based theorems with [prefS]
+     in place of [sameS].
+   GAP 2 (order).  [dfs_find]/[topo_find]: if y occurs in [topoOrder H r], the order is
+     [pre ++ snd (dfs f H y (V, R))] for a state (V, R) in which neither y nor any internal node of the
+     component has been visited (internal nodes are reachable only through the component:
+     [no_outside_edge]; [*_noe]: true when no later node points at an internal node).
+     [tanh_dfs_y] ... [softmax_dfs_y]: the search below y, evaluated on the concrete edge lists, posts
+     [y :: internals (fixed order) ++ rest] whether or not x was already visited.  Hence
+     [tanh_block] ... [softmax_block]: [topo_block H r x y ints], i.e.
+     [topoOrder H r = pre ++ (y :: ints) ++ post], no node of the block in pre/post, x not in pre,
+     every consumer of y in pre.
+   IN-GRAPH THEOREMS.  [bp_fold_seg]: [bp_fold_spec] for a SEGMENT of the order.  [comp_in_graph]
+     (generic glue: bp_topo = fold over pre, over the block, over post) and [tanh_grad_in_graph],
      [relu_grad_in_graph], [leaky_grad_in_graph], [sigmoid_grad_in_graph], [softmax_grad_in_graph]:
-     for any heap H extending the component's heap, any tracked root r above y with
-     [bp_topo rd idseal H r = (H', log, Ok tt)]: with gy the FINAL gradient of y,
+     for any heap H extending the component's heap ([prefS], [no_outside_edge], [rules_own],
+     [wf_heap]), any root r with y in its order and [bp_topo rd idseal H r = (H', log, Ok tt)], the
+     internal nodes holding no gradient in H and x an arbitrary well-shaped prior: with gy the FINAL
+     gradient of y (assumed well formed, of x's shape — as are the contributions of x's other
+     consumers; no global shape invariant of the rules is proved in this development),
        elt gx i = prior (gradOf H x) i
-                  + (sum of the contributions to x of the consumers OUTSIDE the component, each
-                     evaluated in the final heap H') i
-                  + elt gy i * <derivative factor>.  *)
+                  + sumC (contributions rd H' H (outsideOf H r y ints) x) i
+                  + elt gy i * <derivative factor>
+     where the middle term is the element-wise sum of the contributions of the consumers of x
+     OUTSIDE the component, each evaluated in the final heap H'.
+   EXAMPLES (non-vacuity): w leaf, x = w.Scale(2) interior, y = Tanh/Relu/Sigmoid(x), root
+     r = y.Scale(3); and a Tanh whose input x has a second consumer created after the component. *)
 From Coq Require Import List Arith ZArith Bool Lia Reals Lra.
 From Coquelicot Require Import Coquelicot.
 From Qeep Require Import Model.Scalar Model.Nd Model.Fill Model.Data Model.Valid Model.Api Model.Grad
